@@ -393,4 +393,31 @@ theorem iterAdd_triple (it : Iter) (d : Deque) (x : Nat) (m : Mem) : (iterAdd it
 theorem iterReplace_triple (it : Iter) (d : Deque) (x : Nat) (m : Mem) :
     (iterReplace it d x m).2.2.1.triple = d.triple := replaceAt_triple d x _ m
 
+theorem zipRemove_triple (it : Iter) (d1 d2 : Deque) (m : Mem) :
+    (zipRemove it d1 d2 m).2.2.2.1.triple = d1.triple ∧ (zipRemove it d1 d2 m).2.2.2.2.1.triple = d2.triple := by
+  unfold zipRemove
+  split; · exact ⟨rfl, rfl⟩
+  split; · exact ⟨rfl, rfl⟩
+  exact ⟨removeAt_triple d1 _ _, removeAt_triple d2 _ _⟩
+
+theorem zipReplace_triple (it : Iter) (d1 d2 : Deque) (x y : Nat) (m : Mem) :
+    (zipReplace it d1 d2 x y m).2.2.1.triple = d1.triple ∧ (zipReplace it d1 d2 x y m).2.2.2.1.triple = d2.triple := by
+  unfold zipReplace
+  split; · exact ⟨rfl, rfl⟩
+  exact ⟨replaceAt_triple d1 _ _ _, replaceAt_triple d2 _ _ _⟩
+
+theorem zipAdd_triple (it : Iter) (d1 d2 : Deque) (x y : Nat) (m : Mem) :
+    (zipAdd it d1 d2 x y m).2.2.1.triple = d1.triple ∧ (zipAdd it d1 d2 x y m).2.2.2.1.triple = d2.triple := by
+  unfold zipAdd
+  split; · exact ⟨rfl, rfl⟩
+  dsimp only
+  have fold1 : ∀ n, (if d1.cap = d1.size then d1.expandCapacity n else (Stat.ok, d1, n)) = growIfFull d1 n :=
+    fun _ => rfl
+  have fold2 : ∀ n, (if d2.cap = d2.size then d2.expandCapacity n else (Stat.ok, d2, n)) = growIfFull d2 n :=
+    fun _ => rfl
+  simp only [fold1, fold2]
+  split; · exact ⟨growIfFull_triple d1 m, rfl⟩
+  split; · exact ⟨growIfFull_triple d1 m, growIfFull_triple d2 _⟩
+  exact ⟨(addAt_triple _ _ _ _).trans (growIfFull_triple d1 m), (addAt_triple _ _ _ _).trans (growIfFull_triple d2 _)⟩
+
 end CC.Deque
